@@ -161,6 +161,7 @@ type Run struct {
 	onces map[*Value]bool
 	curFrame *frame
 	stubs    map[string]bool
+	pcSet    map[*Term]bool
 	clockConcrete bool
 	viper    map[string]Value
 	nowCount int
@@ -198,6 +199,10 @@ func (r *Run) addPC(c *Term) {
 		return
 	}
 	r.pc = append(r.pc, c)
+	if r.pcSet == nil {
+		r.pcSet = map[*Term]bool{}
+	}
+	r.pcSet[c] = true
 }
 
 func (r *Run) syncSolver() {
@@ -287,7 +292,13 @@ func (r *Run) branch(fr *frame, c *Term) bool {
 	// new decision
 	var feasT, feasF bool
 	var mT, mF Model
-	if v, ok := r.evalModel(c); ok {
+	if r.pcSet[c] {
+		// the condition is literally part of the path condition (e.g. a sample scanned again
+		// after a block boundary): no solver call needed
+		feasT = true
+	} else if r.pcSet[r.tt.Not(c)] {
+		feasF = true
+	} else if v, ok := r.evalModel(c); ok {
 		if v {
 			feasT, mT = true, r.model
 			feasF, mF = r.feasible(r.tt.Not(c))
@@ -570,6 +581,13 @@ func (r *Run) check(fr *frame, c *Term, label string) {
 	r.res.obligations++
 	var feasBad bool
 	var mBad Model
+	if r.pcSet[c] {
+		// the asserted condition is literally a conjunct of the path condition
+		r.res.discharged++
+		r.res.syntactic++
+		r.decisions = append(r.decisions, Decision{b: true})
+		return
+	}
 	if v, ok := r.evalModel(c); ok && !v {
 		feasBad, mBad = true, r.model
 	} else {
